@@ -390,9 +390,17 @@ def _expression_tables(E: Engine, rep: Report) -> None:
     desf = E.fn("pulser.json.abstract_repr.deserializer._deserialize_parameter")
     # the deserializer's renaming table: expression == X -> Y
     renames = {}
-    for n in ast.walk(desf.node):
-        if isinstance(n, ast.IfExp) and isinstance(n.test, ast.Compare) and isinstance(n.test.ops[0], ast.NotEq) and isinstance(n.test.comparators[0], ast.Constant) and isinstance(n.orelse, ast.Constant):
-            renames[n.test.comparators[0].value] = n.orelse.value
+    from .. import sym as _symr
+    from .symutil import S as _Sr
+
+    for l in _Sr(E, desf).log:
+        for top in (l.value, l.target, l.cond):
+            for t in _symr.subterms(top) if top is not None else ():
+                # X if X != "a" else "b"   (canonical form: "b" if X == "a" else X)
+                if t[0] == "ifexp" and t[1][0] == "cmp" and t[1][1] == "Eq":
+                    for x_, c_ in ((t[1][2], t[1][3]), (t[1][3], t[1][2])):
+                        if c_[0] == "const" and isinstance(c_[1], str) and t[2][0] == "const" and isinstance(t[2][1], str) and t[3] == x_:
+                            renames[c_[1]] = t[2][1]
 
     def emitted_expression(fname: str):
         if fname in sigs and "expression" in sigs[fname]["extra"]:
